@@ -427,7 +427,26 @@ class Grounder(engines.engine.Engine, CompilerMixin):
     def resulting_problem_kind(
         problem_kind: ProblemKind, compilation_kind: Optional[CompilationKind] = None
     ) -> ProblemKind:
-        return problem_kind.clone()
+        new_kind = problem_kind.clone()
+        # grounding replaces the static fluents by their values and simplifies: durations and
+        # action costs can become constants, the numeric fluents they used are then declared
+        # but unused, and a non-linear expression can become linear
+        numeric_leftovers = False
+        if new_kind.has_static_fluents_in_durations() or new_kind.has_fluents_in_durations():
+            new_kind.set_expression_duration("INT_TYPE_DURATIONS")
+            new_kind.set_expression_duration("REAL_TYPE_DURATIONS")
+            numeric_leftovers = True
+        if new_kind.has_static_fluents_in_actions_cost():
+            new_kind.set_actions_cost_kind("INT_NUMBERS_IN_ACTIONS_COST")
+            new_kind.set_actions_cost_kind("REAL_NUMBERS_IN_ACTIONS_COST")
+            numeric_leftovers = True
+        if numeric_leftovers:
+            new_kind.set_fluents_type("INT_FLUENTS")
+            new_kind.set_fluents_type("REAL_FLUENTS")
+            new_kind.set_problem_type("SIMPLE_NUMERIC_PLANNING")
+        if new_kind.has_general_numeric_planning():
+            new_kind.set_problem_type("SIMPLE_NUMERIC_PLANNING")
+        return new_kind
 
     def _compile(
         self,
